@@ -19,13 +19,19 @@ func checkC01(sc *SerCase, rec *evid.Rec) (vs []pbt.Violation) {
 	if err != nil {
 		return []pbt.Violation{pbt.V("build", "cannot build the message: %v", err)}
 	}
+	// the slices ToBytes returned, and what they held at that moment: what the
+	// caller was given (and may have queued for the wire) is a serialized message
+	// too and must stay one when the object is serialized again later
+	var given, held [][]byte
 	one := func(stage string) []byte {
 		b, err := m.ToBytes()
 		if err != nil {
 			vs = append(vs, pbt.V("tobytes-error", "%s: ToBytes: %v", stage, err))
 			return nil
 		}
+		given = append(given, b)
 		b = append([]byte(nil), b...)
+		held = append(held, b)
 		if err := ref.Framed(b, sc.Tpl.Tags); err != nil {
 			vs = append(vs, pbt.V("framing:"+ref.Class(err), "%s: %v in %s", stage, err, ref.Show(b)))
 		}
@@ -80,6 +86,13 @@ func checkC01(sc *SerCase, rec *evid.Rec) (vs []pbt.Violation) {
 	if what != "none" {
 		rec.Hist("mutation:" + what)
 		one("serialization after " + what)
+	}
+	for i := range given {
+		if !bytes.Equal(given[i], held[i]) {
+			rec.Hist("earlier-output-changed")
+			vs = append(vs, pbt.V("earlier-output-overwritten", "the bytes returned by serialization #%d changed when the same object was serialized again (%s): were %s, now %s", i+1, what, ref.Show(held[i]), ref.Show(given[i])))
+			break
+		}
 	}
 	return vs
 }
